@@ -745,6 +745,53 @@ def tpo_order(rep, ex: Explorer):
     rep.floor("tpo2ranks evaluations", m, 12)
 
 
+def all_ranks(rep, ex: Explorer):
+    """RANK.all on compute_all_ranks ("lazily, forced or all at once"), decided by evaluation on concrete rank tables in
+    every state of lazy computation (each world of one and two atoms already ranked or not yet): compute_all_ranks returns
+    one entry per world of the table - also for the worlds ranked earlier - whose value is what rank_world reports for
+    that very world."""
+    import itertools
+
+    prog = ex.prog
+    qual = f"{PO}.compute_all_ranks"
+    if qual not in prog.functions:
+        raise AnalysisError("PreOCF.compute_all_ranks not found")
+    site = fn_label(prog, qual)
+    n = 0
+    bad = None
+    for size in (1, 2):
+        worlds = ["".join(t) for t in itertools.product("01", repeat=size)]
+        for asg in itertools.product((None, 0, 3), repeat=len(worlds)):
+            table = dict(zip(worlds, asg))
+
+            def setup(I, table=table):
+                ranks = I.alloc(HDict(entries={w: Const(v) for w, v in table.items()}))
+                o = I.alloc(HObj(CUS, {"ranks": ranks, "signature": ElemV(SIG, "coll", "str"), "conditionals": Const(None),
+                                        "ranking_system": Const("custom"), "_metadata": I.alloc(HDict()), "_state": I.alloc(HDict())}))
+                return [o], {}
+
+            paths = ex.run(qual, setup, summaries=_summ(), key=f"allranks-{size}-{asg}")
+            n += 1
+            if len(paths) != 1:
+                raise AnalysisError(f"{site}: {len(paths)} paths on a concrete rank table {table}")
+            p = paths[0]
+            if p.outcome[0] != "return":
+                bad = bad or (table, f"{p.outcome[0]} {p.outcome[1]!r}"[:100])
+                continue
+            d = p.state.heap.get(p.outcome[1].oid) if isinstance(p.outcome[1], Ref) else None
+            if not (isinstance(d, HDict) and not d.each and not d.sym):
+                raise AnalysisError(f"{site}: the result is not a mapping the analysis can read: {p.outcome[1]!r}")
+            got = {k: (v.label if isinstance(v, Sym) else repr(v)) for k, v in d.entries.items()}
+            want = {w: ("rank", ("c", w)) for w in worlds}
+            if got != want:
+                bad = bad or (table, str({k: F.show_desc(v) if isinstance(v, tuple) else v for k, v in got.items()})[:200])
+    rep.check(bad is None, "RANK.all", site, "entries", "compute_all_ranks returns, for every world of the table (ranked before or not), what rank_world reports for that world",
+              extracted=(f"table {bad[0]} gives {bad[1]}" if bad else f"as required on {n} tables (every state of lazy computation over 2 and 4 worlds)"),
+              required="{w: rank_world(w) for every world w}", function=site)
+    rep.floor("compute_all_ranks evaluations", n, 80)
+
+
+
 # ----------------------------------------------------------------------------------------------
 # C16: System Z ranking object
 # ----------------------------------------------------------------------------------------------
